@@ -1,2 +1,79 @@
-From GB Require Import Bucket Gc.
-Example C04_placeholder : True. Proof. exact I. Qed.
+(* C04 -- concurrent clients see per-key linearizable writes and reads.
+   Property theorems only; proofs live in proofs/SchedProofs.v, LogMono.v, SpecFacts.v. *)
+From Coq Require Import NArith ZArith List Bool String.
+From GB Require Import Consts Words Hash Compress Bucket CheckL2 RefMap Sched Refine SpecFacts LogMono SchedProofs.
+Import ListNotations.
+Open Scope N_scope.
+
+(* Interleaving model (model/Sched.v): writers, flusher and hint dumper are atomic steps (they run under the
+   bucket write lock / chunk lock / hint lock); a get or meta-get is TWO steps -- position lookup, then read
+   by position -- with arbitrarily many steps of any other client, flushes, hint dumps and data-file
+   rotations in between.  For ALL configurations, ALL collision-free key sets, ALL numbers of clients and
+   ALL such interleavings of any length: the replies equal those of the concurrent reference
+   specification in which every write takes effect atomically in schedule order and every read returns
+   the reference map's answer AT ITS LOOKUP STEP -- a point between its invocation and its response.
+   Hence every read returns a value some write stored, never older than the last write completed before
+   the read began (that write precedes the lookup in the schedule). *)
+Theorem C04_linearizable : forall (lc : l2cfg) (K : list bytes) (evs : list cev) (sevs : list sev),
+  (forall k1 k2, In k1 K -> In k2 K ->
+     forced_hash (l_forced lc) k1 = forced_hash (l_forced lc) k2 -> k1 = k2) ->
+  sevs_of evs = Some sevs ->
+  sevs_ok lc K ([], []) sevs ->
+  c_run lc (bucket0, []) evs = s_crun (c_checkvhash (l_cfg lc)) ([], []) sevs.
+Proof.
+  intros lc K evs sevs Hinj Hs Hok.
+  apply (crun_refines lc K Hinj evs (bucket0, []) ([], []) sevs); [apply crel_init|exact Hs|exact Hok].
+Qed.
+Print Assumptions C04_linearizable.
+
+(* the split read is the implementation's read: lookup followed at once by the positional read *)
+Theorem C04_get_is_begin_then_end : forall hf b key, bkt_get hf b key = get_end hf b key (get_begin hf b key).
+Proof. exact get_split. Qed.
+Print Assumptions C04_get_is_begin_then_end.
+
+(* the reason a delayed read still succeeds: client operations only ever extend the data log *)
+Theorem C04_log_append_only : forall cf hf so b key val flag rev ts z q r0,
+  layout_ok b -> log_find b q = Some r0 ->
+  log_find (fst (check_and_set_gen so cf hf b key val flag rev ts z)) q = Some r0.
+Proof. intros cf hf so b key val flag rev ts z q r0 Hl Hq. apply (check_and_set_log cf hf so b key val flag rev ts z Hl), Hq. Qed.
+Print Assumptions C04_log_append_only.
+
+(* versions (on the reference map the model refines): an accepted set with automatic revision or a delete
+   gives the key a strictly larger absolute version, and touches no other key *)
+Theorem C04_versions_increase : forall chk m so k, plain_write so = true ->
+  let m' := fst (spec_step chk m so) in
+  s_get m' k = s_get m k \/ (Z.abs (ver_of m k) < Z.abs (ver_of m' k))%Z.
+Proof. exact spec_version_step. Qed.
+Print Assumptions C04_versions_increase.
+
+Theorem C04_other_keys_untouched : forall chk m so k, wkey so <> Some k ->
+  s_get (fst (spec_step chk m so)) k = s_get m k.
+Proof. exact spec_other_key. Qed.
+Print Assumptions C04_other_keys_untouched.
+
+(* so after any history of such writes each key holds the write with the highest absolute version *)
+Theorem C04_final_is_highest : forall chk ops m k, forallb plain_write ops = true ->
+  (Z.abs (ver_of m k) <= Z.abs (ver_of (fold_left (fun mm o => fst (spec_step chk mm o)) ops m) k))%Z.
+Proof. exact spec_version_mono. Qed.
+Print Assumptions C04_final_is_highest.
+
+(* non-vacuity: client 7 looks k1 up, then k1 is overwritten, the file rotates, the flusher runs, the key is
+   deleted -- and only then does client 7 read by position: it gets the value current at its lookup *)
+Definition ex4_lc : l2cfg := mkL2 (mkCfg 512 4096 3 true 3 false 1) [] 0.
+Definition ex4_K : list bytes := [unhex "6b31"; unhex "6b32"].
+Definition ex4_evs : list cev :=
+  [CAtomic (OSet "6b31" "6161" 0 0 1 (mkZ true 0 0)); CBegin 7 "6b31" false;
+   CAtomic (OSet "6b31" "6262" 0 0 2 (mkZ true 0 0)); CAtomic (OSet "6b32" "6363" 0 0 3 (mkZ true 0 0));
+   CAtomic (OSet "6b32" "6464" 0 0 4 (mkZ true 0 0)); CAtomic OFlush; CBegin 8 "6b31" true; CAtomic (ODel "6b31");
+   CEnd 7; CEnd 8; CAtomic (OGet "6b31")].
+
+Example C04_nonvacuous :
+  (exists sevs, sevs_of ex4_evs = Some sevs /\ sevs_ok ex4_lc ex4_K ([], []) sevs) /\
+  c_run ex4_lc (bucket0, []) ex4_evs =
+    [PStored; PStored; PStored; PStored; POk; PDeleted; PHit (unhex "6161") 0; PMeta 2 (vhash (unhex "6262")) 0 2; PMiss].
+Proof.
+  split.
+  - eexists. split; [reflexivity|]. cbn -[N.land].
+    repeat match goal with |- _ /\ _ => split end; try exact I; try reflexivity; try (cbn; tauto); try (intro H; discriminate H).
+  - vm_compute. reflexivity.
+Qed.
